@@ -183,12 +183,13 @@ func join(a, b *state, widen bool) (*state, bool) {
 }
 
 type summary struct {
-	known    bool
-	net      iv   // net advance on success returns
-	canFail  bool // has failure returns
-	ovFail   int  // max ov at failure returns
-	lenIsNet bool // result string length == net advance
-	failKind string
+	known         bool
+	net           iv   // net advance on success returns
+	canFail       bool // has failure returns
+	ovFail        int  // max ov at failure returns
+	lenIsNet      bool // result string length == net advance
+	tokOK, tokBad bool
+	failKind      string
 }
 
 // cob is one cursor obligation (rule instance).
@@ -406,7 +407,8 @@ func (a *analyzer) transferBlock(fn *ssa.Function, b *ssa.BasicBlock, st *state,
 												anch = true
 											}
 										}
-										if have && m == (iv{0, 0}) && anch && st.ov <= 0 {
+										_ = anch // anchoring matters for C06.Q10 (no text skipped), not for the bound: any match is a substring of input[pos:]
+										if have && m == (iv{0, 0}) && st.ov <= 0 {
 											okLemma = true
 											ov := st.ov
 											st.shift(iv{0, INF})
@@ -419,7 +421,7 @@ func (a *analyzer) transferBlock(fn *ssa.Function, b *ssa.BasicBlock, st *state,
 					}
 				}
 				a.rec("O1", fn, fmt.Sprintf("direct store #%d to the cursor position is covered by a lemma", a.ord(x)), x, okLemma,
-					"the position is assigned directly and the assignment is not `pos += len(FindString(<^-anchored constant regexp>, input[pos:]))` with the cursor within the input: nothing bounds the new position")
+					"the position is assigned directly and the assignment is not `pos += len(FindString(<regexp>, input[pos:]))` with the cursor within the input: nothing bounds the new position")
 				if !okLemma {
 					st.ov = INF
 				}
@@ -569,13 +571,15 @@ func (a *analyzer) transferBlock(fn *ssa.Function, b *ssa.BasicBlock, st *state,
 				sum.known = true
 				sum.net = hull(sum.net, e)
 				if len(x.Results) == 1 {
-					if sl, ok := x.Results[0].(*ssa.Slice); ok && st.atEntry[sl] {
-						if !sum.lenIsNetSet() {
-							sum.lenIsNet = true
-						}
+					res0 := a.res(st, x.Results[0])
+					if sl, ok := res0.(*ssa.Slice); ok && st.atEntry[sl] {
+						sum.tokOK = true
+					} else if k, ok := res0.(*ssa.Const); ok && k.Value != nil && k.Value.Kind() == constant.String && constant.StringVal(k.Value) == "" && e == (iv{0, 0}) {
+						// the empty token with the cursor back at the entry position: length 0 == net advance 0
 					} else {
-						sum.failKind = "notoken"
+						sum.tokBad = true
 					}
+					sum.lenIsNet = sum.tokOK && !sum.tokBad
 				}
 			}
 		}
